@@ -10,12 +10,12 @@ use crate::json::J;
 use crate::model::*;
 use crate::rng::Rng;
 
-pub const RULE: &str = "case = (alphabet, scoring matrix with finite non-wildcard entries, background uniform or dyadic non-uniform with zero wildcard frequency). For DNA widths <= 8 and protein widths <= 3 the exact distribution of the score of a background-distributed word is enumerated (all K^M words, f64) and every pvalue(s) must lie in [P(S >= s+d), P(S >= s-d)] (+-1e-9), d = (M/2+1) discretisation steps (step read back through unscale); query scores: below the minimum, above the maximum, exactly attainable, attainable +- epsilon, uniform in range. Structural checks for all widths up to 30: sf() non-increasing within [0,1], p-values non-increasing along an increasing score grid, pvalue(score(p)) <= p for p log-uniform in (0,1) and equal to tabulated tails. Non-trivial = width >= 2; distinct = distinct (alphabet, matrix, background).";
+pub const RULE: &str = "case = (alphabet, scoring matrix with finite non-wildcard entries, background uniform, dyadic non-uniform, strongly skewed from counts, or with a non-zero wildcard frequency (the wildcard is then one more symbol of the random word, also with wildcard cells below the rest of their row)). For DNA widths <= 8 and protein widths <= 3 the exact distribution of the score of a background-distributed word is enumerated (all K^M words, f64) and every pvalue(s) must lie in [P(S >= s+d), P(S >= s-d)] (+-1e-9), d = (M/2+1) discretisation steps (step read back through unscale); query scores: below the minimum, above the maximum, exactly attainable, attainable +- epsilon, uniform in range. Structural checks for all widths up to 30: sf() non-increasing within [0,1], p-values non-increasing along an increasing score grid, pvalue(score(p)) <= p for p log-uniform in (0,1) and equal to tabulated tails. Non-trivial = width >= 2; distinct = distinct (alphabet, matrix, background).";
 
 pub const REQUIRED: &[&str] = &[
-    "alphabet.dna", "alphabet.protein", "bg.uniform", "bg.nonuniform", "bg.skewed_from_counts", "exact.enumerated", "structural.only",
+    "alphabet.dna", "alphabet.protein", "bg.uniform", "bg.nonuniform", "bg.skewed_from_counts", "bg.wildcard_weighted", "class.wildcard_cell_below_row", "exact.enumerated", "structural.only",
     "query.below_min", "query.far_below_min", "query.far_above_max", "query.above_max", "query.attainable", "query.attainable_eps", "query.random",
-    "roundtrip.p_log_uniform", "roundtrip.p_attainable_tail", "matrix.log_odds", "matrix.arbitrary_finite",
+    "roundtrip.p_log_uniform", "roundtrip.p_attainable_tail", "matrix.log_odds", "matrix.arbitrary_finite", "matrix.flat", "roundtrip.p=1",
 ];
 
 fn run_case<A: Alphabet>(case: u64, rng: &mut Rng, rep: &mut Report, alpha: &str, max_exact: usize) {
@@ -33,6 +33,26 @@ fn run_case<A: Alphabet>(case: u64, rng: &mut Rng, rep: &mut Report, alpha: &str
         let ga: GenericArray<usize, A::K> = c.iter().cloned().collect();
         let b = Background::<A>::from_counts(&ga).unwrap();
         (b.frequencies().to_vec(), b)
+    } else if rng.chance(0.2) {
+        // the wildcard has a non-zero frequency (as Background::from_sequence(.., true) gives on
+        // sequences containing N): it is then one more symbol of the random word
+        rep.cover("bg.wildcard_weighted");
+        if rng.chance(0.5) {
+            let bgv = dyadic_full_bg(rng, k);
+            match Background::<A>::new(bgv.iter().cloned().collect::<GenericArray<f32, A::K>>()) {
+                Ok(b) => (bgv, b),
+                Err(_) => {
+                    rep.violate("c11.setup", case, format!("dyadic background rejected: {:?}", bgv), J::Null);
+                    return;
+                }
+            }
+        } else {
+            let mut c: Vec<usize> = (0..k).map(|_| rng.range(1, 30)).collect();
+            c[k - 1] = rng.range(1, 10);
+            let ga: GenericArray<usize, A::K> = c.iter().cloned().collect();
+            let b = Background::<A>::from_counts(&ga).unwrap();
+            (b.frequencies().to_vec(), b)
+        }
     } else if rng.chance(0.5) {
         rep.cover("bg.uniform");
         (uniform_bg(k), Background::<A>::uniform())
@@ -64,10 +84,28 @@ fn run_case<A: Alphabet>(case: u64, rng: &mut Rng, rep: &mut Report, alpha: &str
         rep.cover("matrix.arbitrary_finite");
         let kind = *rng.pick(&[MatKind::Finite, MatKind::SmallInt, MatKind::FewValued]);
         let mut rows = gen_matrix(rng, k, m, kind);
-        if rng.chance(0.5) {
+        if rng.chance(0.08) {
+            // every cell the same value: the range of the matrix is empty
+            let v = *rng.pick(&[0.0f32, 1.0, -2.5, 0.37]);
+            for r in rows.iter_mut() {
+                for x in r.iter_mut() {
+                    *x = v;
+                }
+            }
+            rep.cover("matrix.flat");
+        }
+        let wild_weight = bgv[k - 1] > 0.0;
+        if rng.chance(if wild_weight { 0.2 } else { 0.5 }) {
             for r in rows.iter_mut() {
                 r[k - 1] = f32::NEG_INFINITY;
             }
+        } else if wild_weight && rng.chance(0.5) {
+            // wildcard cells strictly below the rest of their row
+            for r in rows.iter_mut() {
+                let lo = r[..k - 1].iter().cloned().fold(f32::INFINITY, f32::min);
+                r[k - 1] = lo - rng.f32_in(0.5, 3.0);
+            }
+            rep.cover("class.wildcard_cell_below_row");
         }
         (ScoringMatrix::<A>::new(bg.clone(), dense::<A>(&rows)), "arbitrary")
     };
@@ -90,8 +128,11 @@ fn run_case<A: Alphabet>(case: u64, rng: &mut Rng, rep: &mut Report, alpha: &str
     };
     // structural: sf non-increasing within [0,1]
     let sf = dist.sf();
+    // f32 background frequencies need not sum to exactly one once widened to f64 (from_counts,
+    // 1/20): the total mass of the table - and of the exact model - is one only up to that noise
+    let bg_noise = 1e-9 + 2.0 * (m as f64) * (bgv.iter().map(|&x| x as f64).sum::<f64>() - 1.0).abs();
     for i in 0..sf.len() {
-        if !(sf[i] >= 0.0 && sf[i] <= 1.0) {
+        if !(sf[i] >= 0.0 && sf[i] <= 1.0 + bg_noise) {
             rep.violate("c11.sf_range", case, format!("sf[{}] = {} outside [0,1]", i, sf[i]), wit(J::Null));
             return;
         }
@@ -115,7 +156,7 @@ fn run_case<A: Alphabet>(case: u64, rng: &mut Rng, rep: &mut Report, alpha: &str
                 return;
             }
         };
-        if !(p >= 0.0 && p <= 1.0) {
+        if !(p >= 0.0 && p <= 1.0 + bg_noise) {
             rep.violate("c11.pvalue_range", case, format!("pvalue({}) = {} outside [0,1]", s, p), wit(J::Null));
             return;
         }
@@ -137,6 +178,13 @@ fn run_case<A: Alphabet>(case: u64, rng: &mut Rng, rep: &mut Report, alpha: &str
             ps.push(v);
             rep.cover("roundtrip.p_attainable_tail");
         }
+    }
+    // the ends of the p-value scale (no verdict on p <= 0, which is not a probability of any score)
+    ps.push(1.0);
+    rep.cover("roundtrip.p=1");
+    if let Err(pn) = guard(|| (dist.score(0.0), dist.score(-1.0), dist.score(2.0), dist.min_pvalue())) {
+        rep.violate(&format!("c11.panic:{}", panic_site(&pn)), case, format!("panic in score() at the ends of the scale: {}", pn), wit(J::Null));
+        return;
     }
     for &p in ps.iter() {
         let r = guard(|| {
